@@ -437,6 +437,13 @@ def check_C13(tier, seed):
     for _ in range(200 if tier == "quick" else 2000):
         cases.append({"maj": rnd.choice([0, 1, 2, 3, 5, 7, 100]), "min": rnd.randrange(0, 40), "pat": rnd.randrange(0, 12),
                       "variant": rnd.choice(["os", "desktop"]), "legacy": rnd.random() < 0.5, "db2": rnd.random() < 0.5})
+    # database files that are present but empty (what SQLite leaves behind when a file was opened and never written): the layout
+    # counts as present - with the other layout populated the directory holds both; alone it is not a library of any version
+    for (maj, mn, pat) in [(1, 6, 0), (1, 18, 0), (2, 18, 0), (2, 20, 3), (2, 21, 2), (1, 13, 1), (3, 0, 0), (2, 19, 0)]:
+        for variant in ("os", "desktop"):
+            for (lg, le, d2, de) in [(True, False, True, True), (True, True, True, False), (True, True, False, False), (False, False, True, True),
+                                     (True, True, True, True)]:
+                cases.append({"maj": maj, "min": mn, "pat": pat, "variant": variant, "legacy": lg, "db2": d2, "legacy_empty": le, "db2_empty": de})
     lines = [json.dumps(c) + "\n" for c in cases]
     ins = shard_lines(lines, wd, "det", vlib.NCPU)
 
